@@ -1789,7 +1789,11 @@ func (t *http2Client) reader(errCh chan<- error) {
 		case *http2.PingFrame:
 			t.handlePing(frame)
 		case *http2.GoAwayFrame:
-			errClose = t.handleGoAway(frame)
+			if errClose = t.handleGoAway(frame); errClose != nil {
+				// A GOAWAY that violates the protocol (e.g. an even or an
+				// increased last-stream-id) is a connection error.
+				return
+			}
 		case *http2.WindowUpdateFrame:
 			t.handleWindowUpdate(frame)
 		default:
